@@ -9,6 +9,7 @@ heavy bins, preserved remnant means, the slope-change formula.
 """
 import copy
 import os
+import warnings
 import math
 
 import numpy as np
@@ -165,6 +166,35 @@ def run(chk):
                 if np.any(np.abs(tot - want) > 1e-6 * N0 + 1e-3 * abs(rate) * np.array(tout)):
                     chk.fail("integrated over time N(t) = N0 + integral of the rate when all remnants are retained",
                              dict(stellar_evolution=sev, norm=nrm, rate=rate, N0=N0, tout=tout), dict(N=tot.tolist(), expected=want.tolist()))
+    # ---- both model classes, built through their constructors with a core-collapse time: before it every bin loses the same fraction
+    #      and slopes are frozen, after it heavy bins are untouched (the settings must reach the derivative of EITHER class) ----
+    for cls_name in ("EvolvedMF", "EvolvedMFWithBH"):
+        for nrm in ("N", "M"):
+            tcc_ = float(rng.choice([5000.0, 800.0]))
+            kwc = dict(m_breaks=[0.1, 0.5, 1.0, 100], a_slopes=[-0.5, -1.3, -2.5], nbins=[3, 3, 8], FeH=-1.0, tout=[float(rng.choice([100.0, 300.0]))],
+                       esc_rate=-10.0, N0=5e5, tcc=tcc_, esc_norm=nrm, md=float(rng.choice([1.2, 0.8])))
+            if cls_name == "EvolvedMFWithBH":
+                kwc["f_BH"] = 0.0
+            with warnings.catch_warnings():
+                warnings.simplefilter("ignore")
+                mc = getattr(emf, cls_name).from_powerlaw(**kwc)
+            mbk = mc.massbins
+            y = mbk.pack_values(mc.Ns[-1], mc.alpha[-1], *[x[-1] for x in mc.Nr], *[x[-1] for x in mc.Mr])
+            for t_ in (0.5 * tcc_, 2.0 * tcc_):
+                dNs, dal, dNr, dMr = mbk.unpack_values(mc._derivs_esc(t_, y.copy()), grouped_rem=True)
+                Ns_ = mc.Ns[-1]
+                pop = Ns_ > 1
+                fr = dNs[pop] / Ns_[pop]
+                case_c = dict(cls=cls_name, norm=nrm, tcc=tcc_, t=t_, md=kwc["md"])
+                chk.count("constructor-level escape regime checks")
+                if t_ < tcc_:
+                    if np.any(dal != 0) or (fr.size and (fr.max() - fr.min()) > 1e-9 * abs(fr.min())):
+                        chk.fail("before core collapse every bin loses the same fraction and slopes do not change (model built through its constructor)",
+                                 case_c, dict(dN_over_N=[float(fr.min()), float(fr.max())] if fr.size else None, max_dalpha=float(np.max(np.abs(dal)))))
+                else:
+                    if fr.size and (fr.max() - fr.min()) <= 1e-9 * abs(fr.min()) and np.all(dal == 0):
+                        chk.fail("after core collapse losses depend on mass (model built through its constructor)", case_c,
+                                 dict(dN_over_N=[float(fr.min()), float(fr.max())]))
     # ---- measured, not judged: drift of the BINNED mass under norm 'M' (one power law per bin is an approximation) ----------
     from ssptools.masses import Pk
     drift = []
